@@ -185,6 +185,8 @@ pub struct ArgCtx {
     /// string arguments come from this small pool (names that recur across calls: an entry point named like a
     /// function, a name looked up later)
     pub tiny_strings: Option<&'static [&'static str]>,
+    /// id lists sometimes name one id twice ([a, c, a]): a list argument is carried as given, not as a set
+    pub repeat_in_lists: bool,
 }
 
 pub struct RandArgs<'a> {
@@ -387,7 +389,15 @@ impl<'a> ArgSrc for RandArgs<'a> {
     }
     fn words(&mut self, pname: &str) -> Vec<u32> {
         let n = self.count();
-        let v: Vec<u32> = (0..n).map(|_| self.fresh()).collect();
+        let mut v: Vec<u32> = (0..n).map(|_| self.fresh()).collect();
+        if self.ctx.repeat_in_lists && n >= 1 && self.rng.chance(3, 4) {
+            if n == 1 {
+                v.push(v[0]);
+            } else {
+                let from = self.rng.below(n - 1);
+                v[n - 1] = v[from];
+            }
+        }
         self.rec(pname, ArgV::Words(v.clone()));
         v
     }
